@@ -38,7 +38,7 @@ def run(chk, prog):
     docs = {shipped} | set(fetched)
     # R1: self-verification of the shipped root precedes every fetch and every exit with Ok
     selfv = []
-    for bb, t in ctx.calls(ROOT_VERIFY):
+    for bb, t in ctx.calls(ROOT_VERIFY, wrappers=True):
         og = ctx.origins.of_operand(t.args[1], at=bb)
         ro = ctx.origins.of_operand(t.args[0], at=bb)
         if og == {shipped} and ro and all(base(o) == shipped and o.fields == ("signed",) for o in ro):
@@ -72,7 +72,7 @@ def run(chk, prog):
         is_new = lambda o: base(o) in new
         # (i) signed by the keys of the root currently trusted (loop variable: several origins)
         e_old, e_new = [], []
-        for bb, t in ctx.calls(ROOT_VERIFY):
+        for bb, t in ctx.calls(ROOT_VERIFY, wrappers=True):
             og = ctx.origins.of_operand(t.args[1], at=bb)
             ro = ctx.origins.of_operand(t.args[0], at=bb)
             if not og or not all(is_new(o) for o in og) or not ro:
